@@ -124,6 +124,56 @@ theorem opts_is_not_ops : ([111, 112, 116, 115] : Bytes) ≠ k_ops := by decide
 example : basicRun none [some { n := 1 }, none, some { n := 2 }, some { n := 3, id := 7 }] =
     [{ n := 1 }, { n := 3, id := 1 }, { n := 6, id := 7 }] := by decide
 
+/-! ### collectors whose writes depend on a random draw or on the clock -/
+
+/-- the running totals after every non-nil event (what a cumulative collector writes) -/
+def allTotals (cur : Option Perf) (es : List Ev) : List Perf := basicRun cur es
+
+/-- keep the entries whose gate is open (gates used up = closed) -/
+def gateFilter : List Bool → List Perf → List Perf
+  | _, [] => []
+  | gs, p :: ps => (if gs.headD false then [p] else []) ++ gateFilter gs.tail ps
+
+/-- **random-sampling and interval collectors, for every outcome of the random generator and every timing**: whatever
+the gates decide, what is written is a selection - in order - of the running totals of ALL events so far: an event
+that is not written still contributes to every later sample -/
+theorem gated_written_are_totals (gates : List Bool) (es : List Ev) (cur : Option Perf) :
+    gatedRun cur gates es = gateFilter gates (basicRun cur es) := by
+  induction es generalizing cur gates with
+  | nil => simp [gatedRun, basicRun, gateFilter]
+  | cons e es ih =>
+    cases e with
+    | none => simp [gatedRun, basicRun, basicStep, ih]
+    | some ev =>
+      cases cur with
+      | none => simp [gatedRun, basicRun, basicStep, gateFilter, ih]
+      | some c => simp [gatedRun, basicRun, basicStep, gateFilter, ih]
+
+/-- with every gate open the gated collectors are the cumulative collector; with none, nothing is written -/
+theorem gated_all_open (es : List Ev) : gatedRun none (List.replicate es.length true) es = basicRun none es := by
+  rw [gated_written_are_totals]
+  have : ∀ (n : Nat) (ps : List Perf), ps.length ≤ n → gateFilter (List.replicate n true) ps = ps := by
+    intro n
+    induction n with
+    | zero => intro ps h; cases ps with
+      | nil => rfl
+      | cons _ _ => simp at h
+    | succ k ih => intro ps h; cases ps with
+      | nil => rfl
+      | cons p ps => simp [gateFilter, List.replicate_succ, ih ps (by simpa using h)]
+  apply this
+  -- at most one sample per event
+  have hl : ∀ (es : List Ev) (cur : Option Perf), (basicRun cur es).length ≤ es.length := by
+    intro es
+    induction es with
+    | nil => intro cur; simp [basicRun]
+    | cons e es ih =>
+      intro cur
+      cases e with
+      | none => simp [basicRun, basicStep]; exact Nat.le_succ_of_le (ih cur)
+      | some ev => cases cur <;> simp [basicRun, basicStep] <;> exact ih _
+  exact hl es none
+
 /-! ### The Go text itself (regenerated)
 
 `Ftdc.Gen.Events.Add` (Gen/Code.lean) is translated from `Performance.Add` in events/performance.go on every
